@@ -465,6 +465,14 @@ func checkC09(c *Check) {
 				}
 			}
 			nw++
+			// only terminal statuses are classified: the wait does not ask for stop / continue reports (a stopped
+			// program is neither exited nor signalled; classifying it, e.g. in a catch-all arm, ends a healthy run)
+			if len(ci.Common().Args) >= 3 {
+				opt, isC := constInt(ci.Common().Args[2])
+				bad := p.Unix("WUNTRACED") | p.Unix("WCONTINUED")
+				c.Cond(isC && opt&bad == 0, "2/main-pid-only", fk[0]+"."+fn.Name()+":Wait4-options", p.Pos(ci.Pos()), "the classifying wait reports terminations only",
+					fmt.Sprintf("the classifying Wait4 is called with options %s: job-control stops / continues are reported to a classifier that knows only exited and signalled", describe(ci.Common().Args[2])))
+			}
 			ok := false
 			switch v := stripConv(a).(type) {
 			case *ssa.Extract:
@@ -506,6 +514,12 @@ func checkC09(c *Check) {
 		}
 	}
 	c.Expect("6/vanished-tracee", 4)
+
+	// the result reported is the result of THIS run: both receive loops decode into fresh values; one call at a time
+	// talks to the container (a second command arriving during a run is taken for the kill)
+	checkFreshDecode(c, "7/result-is-fresh")
+	importObs(c, "C17", "C17.5/env-mutex", "8/one-call-at-a-time", nil)
+	c.Expect("8/one-call-at-a-time", 10)
 }
 
 func isErrorType(t types.Type) bool {
